@@ -38,6 +38,10 @@ PARS = [
     {'n_test': 14, 'n_pretest_max': 20, 'treatment_geos_range': [1, 3],
      'geo_ratio_tolerance': 1.0},
     {'n_test': 30},                                   # precondition fails
+    # accepted parameter objects holding integer-valued floats
+    {'n_test': 7.0}, {'n_geos_max': 3.0}, {'n_pretest_max': 20.0},
+    {'treatment_geos_range': [1.0, 2.0]}, {'control_geos_range': [1.0, 3.0]},
+    {'n_designs': 2.0},
 ]
 # eligibility shapes per geo count (codes: 0 c, 1 t, 2 x, 3 ct, 4 cx, 5 tx,
 # 6 ctx, -1 absent)
